@@ -24,7 +24,8 @@ LEVEL = 'model_checking'
 ENGINE = 'E2 small-scope enumeration against an independent stable reference sort'
 RULE = ('every table of each family (single key + id column with ids DEscending, so that a merge comparing whole '
         'rows on key ties is visible; compound key + ascending id; key=None lexical with and without id column, '
-        'the latter with equal cells of different type; ragged rows: key cell missing, surplus cells, empty rows; '
+        'the latter with equal cells of different type; ragged rows: key cell missing, surplus cells, empty rows, '
+        'with id column and (key=None) without, so that short rows tie with explicit-None rows; '
         'header-field namings for key=None / index keys: int names that look like indices, None, float, duplicate '
         'names, names equal after str()) x '
         'key spellings x the strategy cross product: full = reverse x buffersize {None,1..n+1} given as argument '
@@ -44,9 +45,10 @@ RULE = ('every table of each family (single key + id column with ids DEscending,
 ASSUMPTIONS = [
     'tables have <= 4 (thorough 5) rows; key cells range over K4/K6/K3 representatives chosen by the seed',
     'a missing key cell sorts as None (what the statement calls "missing key cells")',
-    'lexical sort (key=None) of a RAGGED table: the documentation does not say whether surplus cells take part '
-    'and whether absent cells read as None, so both readings are accepted, but every strategy/pass must deliver '
-    'the sequence of the default strategy',
+    'a missing cell reads as None also in a lexical sort (key=None): a short row and a row with an explicit None in '
+    'that position have equal keys and must keep input order under every strategy',
+    'lexical sort of a table with LONG rows: whether surplus cells take part in the key is undocumented, so both '
+    'readings are accepted, but every strategy/pass must deliver the sequence of the default strategy',
     'buffersize 0 and negative are outside the statement (1 .. beyond the row count)',
     'non-text field names are enumerated for sort/issorted only (mergesort renders field names as text, cat does '
     'not: outside the documented domain)',
@@ -91,6 +93,18 @@ def _families(tier, seed):
     if not thorough:
         r3 = [(sh, k) for k in K3[:2] for sh in ('full', 'long')] + [('before', None), ('empty', None)]
         fams['ragged3'] = dict(hdr=('id', 'k', 'v'), syms=r3, maxn=3, minn=3, keys=[('k', 'core'), (None, 'core')])
+    # ragged lexical WITHOUT id column (header (a, b)): only here do keys tie, e.g. the short row (x,) against
+    # the row (x, None) holding an explicit None, or two long rows that differ in their surplus cell only
+    i1 = K3[1]
+    cells = (None, i1)
+    full = [('r', (a, b)) for a in cells for b in cells]
+    short = [('r', (a,)) for a in cells] + [('r', ())]
+    long_ = [('r', (a, b, x)) for a in cells for b in cells for x in ('x', 'y')]
+    lexkeys = [(None, 'core')]
+    fams['raglex'] = dict(hdr=('a', 'b'), syms=full + short + long_, maxn=3 if thorough else 2, keys=lexkeys)
+    small = [('r', (a, None)) for a in cells] + short + [('r', (a, None, x)) for a in cells for x in ('x', 'y')]
+    fams['raglex+'] = dict(hdr=('a', 'b'), syms=small, maxn=4 if thorough else 3, minn=4 if thorough else 3,
+                           keys=lexkeys)
     # header-field naming: field names that are not text (ints that look like indices, None, float), duplicate
     # names and names equal after str().  key=None (lexical) and keys given by index must not look at the names.
     for i, h in enumerate(HEADER_NAMINGS):
@@ -104,6 +118,8 @@ HEADER_NAMINGS = [('name', 0), (1, 0), (0, 0), (None, 'v'), (1.5, 'v'), ('v', 'v
 
 def _row(sym, i):
     t = sym[0]
+    if t == 'r':
+        return tuple(sym[1])
     if t == 'g':
         # ids DEscending with input position: a merge that falls back to comparing whole rows when keys tie
         # would otherwise reproduce input order by accident (ascending ids)
